@@ -144,6 +144,7 @@ func execFilterExprWithPredicate(context *exprContext, expr *grammar.Grammar) er
 	for _, cn := range expr.BSR.GetAllNTChildren() {
 		for _, c := range cn {
 			children = append(children, &c)
+			break
 		}
 	}
 
@@ -298,6 +299,7 @@ func execNameTestNamespaceAnyLocalReservedNameConflict(context *exprContext, exp
 	for _, cn := range expr.BSR.GetAllNTChildren() {
 		for _, c := range cn {
 			children = append(children, &c)
+			break
 		}
 	}
 
@@ -570,6 +572,7 @@ func execAbbreviatedRelativeLocationPath(context *exprContext, expr *grammar.Gra
 	for _, cn := range expr.BSR.GetAllNTChildren() {
 		for _, c := range cn {
 			children = append(children, &c)
+			break
 		}
 	}
 
